@@ -158,6 +158,7 @@ func (p *c06) branchRows(b int, t []any) []string {
 }
 
 func (p *c06) RunCase(i int) *core.CaseResult {
+	defer withNoise()()
 	r := &core.CaseResult{}
 	c := &p.cases[i]
 	sql := p.sqlOf(c)
